@@ -191,6 +191,13 @@ def evaluate(case: Dict[str, Any]) -> Outcome:
             if _sha(path) != digest or os.stat(path).st_mtime_ns != mtime:
                 out.fail("file_outside_output_modified", f"{label}: {os.path.relpath(path, folder)} (outside the output directory) was modified by the run")
                 return out
+        if case["mode"] == "valid" and result.rc == 0 and os.path.isdir(outdir):
+            label_ = cli.method_label(case.get("method"), case.get("schedule"), case["country"])
+            expected_names = set(cli.expected_report_names(case["country"], label_, case.get("prefix") or ""))
+            extra_files = sorted(set(os.listdir(outdir)) - expected_names)
+            if extra_files:
+                out.fail("unexpected_file_in_output_directory", f"{label}: besides its reports {sorted(expected_names)} the run left {extra_files} in the output directory")
+                return out
         # anything new in the work folder besides inputs, audit log, output dir and ./log ?
         allowed = {"audit.jsonl", "log", os.path.basename(outdir), "input.ini", "input.ods", "input.xlsx", "out_base", "out_fault"}
         allowed |= {"home", "out_sibling"} | {os.path.basename(p) for p in planted if os.path.dirname(p) == folder}
